@@ -37,11 +37,11 @@ type Leaf struct {
 
 func (l Leaf) F() float64 { return math.Float64frombits(l.FB) }
 
-func LeafC(l Leaf) Clause      { return Clause{Op: "leaf", Leaf: &l} }
-func And(s ...Clause) Clause   { return Clause{Op: "and", Subs: s} }
-func Or(s ...Clause) Clause    { return Clause{Op: "or", Subs: s} }
-func Not(s Clause) Clause      { return Clause{Op: "not", Subs: []Clause{s}} }
-func NullClause() Clause       { return Clause{Op: "null"} }
+func LeafC(l Leaf) Clause    { return Clause{Op: "leaf", Leaf: &l} }
+func And(s ...Clause) Clause { return Clause{Op: "and", Subs: s} }
+func Or(s ...Clause) Clause  { return Clause{Op: "or", Subs: s} }
+func Not(s Clause) Clause    { return Clause{Op: "not", Subs: []Clause{s}} }
+func NullClause() Clause     { return Clause{Op: "null"} }
 func (c Clause) String() string {
 	switch c.Op {
 	case "leaf":
